@@ -54,8 +54,10 @@ RECURSIVE IdxFrom(_, _, _)
 IdxFrom(i, step, lim) == IF i >= lim THEN <<>> ELSE <<i>> \o IdxFrom(i + step, step, lim)
 DimIdx(s, ext) == IF s = <<>> THEN IdxFrom(0, 1, ext) ELSE IdxFrom(s[1], s[3], Min(s[2], ext))
 
-\* selections offered per dimension: nil, or start < extent, stop in start+1 .. extent+1, step 1..MaxStep
-DimSels(ext) == {<<>>} \cup {<<a, b, c>> \in (0..(ext - 1)) \X (1..(ext + 1)) \X (1..MaxStep) : b > a}
+\* selections offered per dimension: nil, or start <= extent, stop in start .. extent+1, step 1..MaxStep.
+\* stop = start (and start = extent) select NOTHING: the result has extent 0 in that dimension, like the in-memory
+\* slice of length 0 -- whatever the step.
+DimSels(ext) == {<<>>} \cup {<<a, b, c>> \in (0..ext) \X (0..(ext + 1)) \X (1..MaxStep) : b >= a}
 
 LoadShape(sel, shape) == [d \in 1..Len(shape) |-> Len(DimIdx(sel[d], shape[d]))]
 LoadVals(ds, sel) ==
